@@ -360,6 +360,16 @@ def run_repeat(case, rec):
     b = common.monitored(rec, f"repeat:{what}", once)
     if rec.check(a.ok and b.ok, "no-exception", f"{what} raised {a.exc!r} / {b.exc!r}"):
         rec.check(a.result == b.result, "repeatable", f"two calls of {what} on the same input returned different bytes; {case['field']['grid']}")
+    # results belong to the caller: scribbling over what a call returned must not change what the
+    # next call on the same input returns (no internal cache may be handed out)
+    scr = common.monitored(rec, "scribble", scribble, field, what)
+    if scr.ok and scr.result:
+        rec.hit("scribbled-results")
+        d = common.monitored(rec, f"repeat:{what}", once)
+        if a.ok and rec.check(d.ok, "no-exception", f"{what} raised {d.exc!r} after the caller modified an earlier result"):
+            rec.check(a.result == d.result, "repeatable",
+                      f"{what} on the same input returned different bytes after the caller had modified the arrays/"
+                      f"droplets returned by an earlier call; {case['field']['grid']}")
     # history independence: unrelated analyses with other options in between must not change the
     # result of repeating the same analysis on the same input (no state may leak between calls)
     inter = common.monitored(rec, "interfering-calls", interfere, field, case.get("interfere_seed", 0))
@@ -371,6 +381,44 @@ def run_repeat(case, rec):
                   f"been run in between; {case['field']['grid']}")
     rec.evaluated(nontrivial=len(case["field"]["droplets"]) >= 1)
     rec.count(f"repeat:{what}")
+
+
+def scribble(field, what):
+    """Call the analysis once more and overwrite everything it returned (the caller owns it)."""
+    import droplets
+
+    if what in ("locate", "locate-refine"):
+        em = droplets.locate_droplets(field, refine=(what == "locate-refine"))
+        for d in em:
+            d.position[...] = -7.0
+            d.radius = d.radius + 3.0
+        em.clear()
+        return True
+    if what == "structure":
+        for kw in ({}, {"smoothing": None}, {"smoothing": None, "add_zero": True}):
+            k, s = droplets.get_structure_factor(field, **kw)
+            for arr in (k, s):
+                arr = np.asarray(arr)
+                if arr.flags.writeable:
+                    arr[...] = -1.0
+        return True
+    if what == "render":
+        em = droplets.locate_droplets(field)
+        f = em.get_phasefield(field.grid)
+        f.data[...] = np.nan
+        for d in em:
+            g = d.get_phase_field(field.grid)
+            g.data[...] = np.nan
+        return True
+    if what == "tracking":
+        em = droplets.locate_droplets(field)
+        etc = droplets.EmulsionTimeCourse([em, em.copy(), em[:1]], times=[0.0, 1.0, 2.5])
+        for tr in droplets.DropletTrackList.from_emulsion_time_course(etc, method="distance"):
+            for d in tr.droplets:
+                d.radius = d.radius + 1.0
+            tr.times[:] = [-1.0] * len(tr.times)
+        return True
+    return False
 
 
 def interfere(field, seed):
